@@ -1389,7 +1389,13 @@ mismatch between values and axes""".format(inferred, self.values.shape)
         """ initialize a DimArray from a json-compatible dictionary
         """
         jsondict = jsondict.copy()
-        dima = cls(jsondict.pop('values', None), 
+        values = jsondict.pop('values', None)
+        shape = jsondict.pop('shape', None)
+        if values is not None and shape is not None:
+            # nested lists do not record the shape of an array with an
+            # empty dimension: (0, 3) and (0,) both come out as []
+            values = np.reshape(values, shape)
+        dima = cls(values, 
                    axes=jsondict.pop('labels', None), 
                    dims=jsondict.pop('dims', None))
         if 'meta' in jsondict:
